@@ -1,10 +1,15 @@
-From RsdnsModel Require Import Base Cursor Names Labels Header Tracker RData Reader Script.
-From RsdnsModel.Proofs Require Import CursorSafe LabelsTotal NoUB Defined.
+From RsdnsModel Require Import Base GenReader GenTypes Cursor Names Labels Header Tracker RData Reader Script.
+From RsdnsModel.Proofs Require Import CursorSafe LabelsTotal NoUB Defined ReaderTotal.
 From RsdnsModel.Properties Require Import C01.
 Open Scope N_scope.
-Check (C01_name_walk_total : forall msg nk c, cwf msg c -> defined (read_name msg nk c) /\ defined (skip_name msg c)).
-Check (C01_name_walk_bound : forall msg st s, linv msg st -> label_step msg st = Ok s ->
-  match s with LEnd _ => True | LLabel _ _ st' | LJump st' => linv msg st' /\ lmeasure st' < lmeasure st end).
+Check (C01_name_walk_total : forall msg nk c, cwf msg c ->
+  defined (read_name msg nk c) /\ defined (skip_name msg c)).
+Check (C01_name_walk_bound : forall msg st s, linv msg st ->
+  label_step msg st = Ok s ->
+  match s with
+  | LEnd _ => True
+  | LLabel _ _ st' | LJump st' => linv msg st' /\ lmeasure st' < lmeasure st
+  end).
 Check (C01_never_out_of_bounds : forall (msgs : list (list byte)) (cs : list item),
   Forall (fun o => o <> UB) (run_script (world_init msgs) cs)).
 Check (C01_cursor_total : forall msg c n, cwf msg c ->
@@ -14,6 +19,21 @@ Check (C01_rdata_total : forall msg ty rd m c, read_rdata msg ty rd = Some m -> 
   cwf msg (fst (m c)) /\ defined (snd (m c))).
 Check (C01_borrowed_names_total : forall msg c1 c2, cwf msg c1 -> cwf msg c2 ->
   defined (nameref_eq msg c1 c2) /\ defined (labels_drain msg c1)).
-Print Assumptions C01_rdata_total. Print Assumptions C01_borrowed_names_total.
-Print Assumptions C01_name_walk_total. Print Assumptions C01_name_walk_bound.
-Print Assumptions C01_never_out_of_bounds. Print Assumptions C01_cursor_total.
+Check (C01_reader_start : forall msg r, reader_new msg = Ok r ->
+  RInv msg r /\ r_tr r = tr_default /\ rgood msg (rd_header msg r)).
+Check (C01_reader_total : forall msg r, RInv msg r ->
+  (forall single as_ref, rgood msg (rd_question msg single as_ref r)) /\
+  rgood msg (rd_skip_questions msg r) /\
+  (rgood msg (rd_marker msg r) /\
+   forall r' mk, rd_marker msg r = (r', Ok (OMarker mk)) -> mk_ok r' mk /\ pos (r_cur r') = rdata_pos mk) /\
+  (rgood msg (rd_header_ref msg r) /\
+   forall r' nref mk, rd_header_ref msg r = (r', Ok (OHeaderRef nref mk)) -> mk_ok r' mk /\ pos (r_cur r') = rdata_pos mk) /\
+  (forall nk, rgood msg (rd_header_n msg nk r) /\
+   forall r' n mk, rd_header_n msg nk r = (r', Ok (OHeaderN n mk)) -> mk_ok r' mk /\ pos (r_cur r') = rdata_pos mk) /\
+  (forall mk, mk_ok r mk -> pos (r_cur r) = rdata_pos mk ->
+     rgood msg (rd_skip_data mk r) /\ rgood msg (rd_data_bytes msg mk r) /\ (forall ty, rgood msg (rd_data msg ty mk r)) /\
+     (m_rtype mk = T_OPT -> rgood msg (rd_opt mk r))) /\
+  (forall s, s < 3 -> rgood msg (rd_seek msg s r)) /\
+  (defined (rd_questions_count r) /\ defined (rd_records_count r) /\ forall s, defined (rd_records_count_in s r)) /\
+  (forall ty mk, defined (rd_bytes_at msg mk r) /\ defined (rd_data_at msg ty mk r) /\ defined (rd_name_ref_at mk r))).
+Print Assumptions C01_name_walk_total. Print Assumptions C01_name_walk_bound. Print Assumptions C01_never_out_of_bounds. Print Assumptions C01_cursor_total. Print Assumptions C01_rdata_total. Print Assumptions C01_borrowed_names_total. Print Assumptions C01_reader_start. Print Assumptions C01_reader_total.
